@@ -6,6 +6,7 @@ The medium: bacpypes.vlan.Network subclassed so that process_pdu consults a faul
 schedule (deliver / drop / duplicate / hold-and-release-later / silence-from) and records
 every frame.  This is the library's own virtual LAN, the medium the properties name.
 """
+import bacpypes.core as _core
 from bacpypes.comm import bind, Client
 from bacpypes.pdu import Address, LocalBroadcast, PDU
 from bacpypes.vlan import Network, Node
@@ -110,7 +111,9 @@ class FaultLAN(Network):
         held, self.held = self.held, []
         for rel, p, _ in held:
             if not self.silent:
-                Network.process_pdu(self, p)
+                # through the deferred queue, so that the frame arrives inside the event loop like every other frame (an
+                # exception in the receiving stack is then the loop's business, as it is for a frame from a socket)
+                _core.deferred(Network.process_pdu, self, p)
         return len(held)
 
 
